@@ -42,7 +42,7 @@ func TestVerifFindingS(t *testing.T) {
 	r.applyCommitted(nil)
 	_ = r.lastApplied()
 	// the node's own snapshot at index 5
-	meta, err := doTakeSnapshot(r.fsm, 0, r.configs.Committed)
+	meta, err := doTakeSnapshot(r.fsm, 0)
 	if err != nil || meta.index != 5 {
 		t.Fatalf("meta=%v err=%v", meta, err)
 	}
